@@ -39,7 +39,7 @@ EXPLANATION = (
 
 def rule_s1(chk: Check) -> None:
     chk.rule("S1", "at most one handler/upload-handler dispatch over any activation sequence of the protocol (machine)")
-    mach = machine_findings(chk, "S1", {"double-dispatch"}, "at most one dispatch over all activation sequences")
+    mach = machine_findings(chk, "S1", {"double-dispatch", "double-consult"}, "at most one dispatch and one chain consultation over all activation sequences")
     machine_floor(chk, "S1", mach, dispatch=2)
 
 
@@ -48,14 +48,28 @@ def rule_s2(chk: Check) -> None:
     ci = chk.proj.cls(SERVER_PROTO)
     sites = []
     for fi in ci.methods.values():
+        # local aliases of request objects held on self: `request = self.titan_request`
+        alias: dict[str, str] = {}
+        for st in walk(fi.node):
+            if isinstance(st, ast.Assign) and len(st.targets) == 1 and isinstance(st.targets[0], ast.Name) and (dotted(st.value) or "").startswith("self."):
+                nm = st.targets[0].id
+                alias[nm] = "?" if nm in alias else dotted(st.value)
+
+        def canon(e, _alias=alias):
+            d = dotted(e) or ""
+            head = d.split(".")[0]
+            if head in _alias and _alias[head] != "?":
+                d = _alias[head] + d[len(head):]
+            return d
+
         for st in walk(fi.node):
             if isinstance(st, ast.Assign):
                 for t in st.targets:
-                    d = dotted(t) or ""
+                    d = canon(t)
                     if d.endswith(".content") and d.startswith("self."):
-                        sites.append((fi, st, d))
-    chk.floor("S2", "Titan content assignment sites", len(sites), 1)
-    for fi, st, d in sites:
+                        sites.append((fi, st, d, canon))
+    chk.require("S2", ci.key, "Titan content assignment sites", len(sites), 1, "the protocol never assigns the upload content: uploads cannot carry the bytes sent")
+    for fi, st, d, canon in sites:
         owner = d[: -len(".content")]
         v = st.value
         ok = (
@@ -64,7 +78,8 @@ def rule_s2(chk: Check) -> None:
             and isinstance(v.slice, ast.Slice)
             and v.slice.lower is None
             and v.slice.step is None
-            and dotted(v.slice.upper) == f"{owner}.size"
+            and v.slice.upper is not None
+            and canon(v.slice.upper) == f"{owner}.size"
         )
         if not ok:
             chk.finding("S2", fi.key, f"content-slice:{norm(v)}", f"Titan content is assigned `{norm(v)}`, not exactly the first `size` bytes of the buffer", fi.loc(st))
@@ -122,7 +137,14 @@ def segmentation_rules(chk: Check, R: str, fi) -> None:
                 if not reads:
                     continue
                 okb = False
-                if isinstance(n.ast, ast.Assign) and isinstance(n.ast.targets[0], ast.Name):
+                if isinstance(n.ast, ast.Assign) and isinstance(n.ast.targets[0], ast.Name) and _backed_off_length(n.ast.value):
+                    # `v = max(0, len(self.buffer) - k)`, k >= len(separator) - 1, used only
+                    # as the start of a separator search
+                    v = n.ast.targets[0].id
+                    uses = [x for x in walk(fi.node) if isinstance(x, ast.Name) and x.id == v and isinstance(x.ctx, ast.Load)]
+                    starts = [c.args[1] for c in calls(fi.node) if method_call(c) and method_call(c)[1] in ("find", "index") and len(c.args) >= 2]
+                    okb = bool(uses) and all(any(u is s0 for s0 in starts) for u in uses)
+                elif isinstance(n.ast, ast.Assign) and isinstance(n.ast.targets[0], ast.Name):
                     v = n.ast.targets[0].id
                     uses = [x for x in walk(fi.node) if isinstance(x, ast.Name) and x.id == v and isinstance(x.ctx, ast.Load)]
                     safe = 0
@@ -172,6 +194,29 @@ def _arms(expr: ast.AST, fn: ast.AST, depth: int = 0):
     yield expr, ""
 
 
+def _backed_off_length(v: ast.AST) -> bool:
+    """`len(self.buffer) - k` with k >= 1, optionally inside max(0, .)."""
+    if isinstance(v, ast.Call) and dotted(v.func) == "max" and len(v.args) == 2:
+        v = v.args[1] if isinstance(v.args[0], ast.Constant) else v.args[0]
+    return (
+        isinstance(v, ast.BinOp) and isinstance(v.op, ast.Sub) and norm(v.left) == "len(self.buffer)"
+        and isinstance(v.right, ast.Constant) and isinstance(v.right.value, int) and v.right.value >= 1
+    )
+
+
+def _int_term(proj, mi, e: ast.AST):
+    """Integer value of an additive term: a literal, a module constant, or
+    len(<module bytes/str constant>) such as len(CRLF)."""
+    v = proj.eval_const(mi, e)
+    if isinstance(v, int) and not isinstance(v, bool):
+        return v
+    if isinstance(e, ast.Call) and dotted(e.func) == "len" and len(e.args) == 1:
+        c = proj.eval_const(mi, e.args[0])
+        if isinstance(c, (str, bytes)):
+            return len(c)
+    return None
+
+
 def _is_buffer_line(name: str, fn: ast.AST, depth: int = 0) -> bool:
     """`name` is (a copy / slice of) the part of self.buffer before the
     separator: bound from self.buffer.split/partition(...) or self.buffer[:i]."""
@@ -193,6 +238,98 @@ def _is_buffer_line(name: str, fn: ast.AST, depth: int = 0) -> bool:
     return False
 
 
+def _sep_absent_label(t: ast.AST, fn: ast.AST) -> str | None:
+    """For a test on the presence of the separator in self.buffer: the edge label
+    ('T'/'F') that means "absent"; None if the test is something else."""
+    flip = False
+    while isinstance(t, ast.UnaryOp) and isinstance(t.op, ast.Not):
+        t, flip = t.operand, not flip
+    lab = None
+    if isinstance(t, ast.Compare) and len(t.ops) == 1:
+        op, right = t.ops[0], t.comparators[0]
+        if isinstance(op, (ast.In, ast.NotIn)) and dotted(right) == "self.buffer":
+            lab = "F" if isinstance(op, ast.In) else "T"
+        elif isinstance(t.left, ast.Name) and isinstance(right, (ast.Constant, ast.UnaryOp)):
+            src = [st.value for st in walk(fn) if isinstance(st, ast.Assign) and any(isinstance(x, ast.Name) and x.id == t.left.id for x in st.targets)]
+            if src and all(isinstance(v, ast.Call) and method_call(v) and method_call(v)[1] == "find" and dotted(method_call(v)[0]) == "self.buffer" for v in src):
+                try:
+                    val = ast.literal_eval(right)
+                except Exception:  # noqa: BLE001
+                    val = None
+                if isinstance(op, ast.Lt) and val == 0 or isinstance(op, ast.Eq) and val == -1:
+                    lab = "T"
+                elif isinstance(op, ast.GtE) and val == 0 or isinstance(op, ast.NotEq) and val == -1 or isinstance(op, ast.Gt) and val == -1:
+                    lab = "F"
+    if lab is None:
+        return None
+    return ({"T": "F", "F": "T"}[lab]) if flip else lab
+
+
+def _cfg_unterminated(chk: Check, fi):
+    from ..paths import BoolFacts, boolfacts_step, walk_paths
+
+    g = build_cfg(chk.proj, fi)
+    out = []
+    for c in g.nodes:
+        if c.kind != "test" or not isinstance(c.ast, ast.Compare) or len(c.ast.ops) != 1 or not isinstance(c.ast.ops[0], (ast.Gt, ast.GtE)):
+            continue
+        if norm(c.ast.left) != "len(self.buffer)":
+            continue
+        lim = chk.proj.eval_const(fi.module, c.ast.comparators[0])
+        if not isinstance(lim, int) or isinstance(lim, bool) or lim <= 2:
+            continue
+        # the statements reached directly behind the true edge (through further tests)
+        acts, todo, seen = set(), [b for b, lab in g.succ[c.id] if lab == "T"], set()
+        while todo:
+            x = todo.pop()
+            if x in seen:
+                continue
+            seen.add(x)
+            if g.nodes[x].kind == "test":
+                todo += [b for b, _l in g.succ[x]]
+            elif g.nodes[x].kind in ("stmt", "with"):
+                acts.add(x)
+        if not acts:
+            continue
+        n_abs = n_all = 0
+        try:
+            paths = walk_paths(g, g.entry.id, BoolFacts(), boolfacts_step, stop=lambda n, _a=acts: n.id in _a, follow=normal_only, max_paths=5000)
+        except Exception:  # noqa: BLE001 - path explosion: leave this site to the textual view
+            continue
+        for path, _st in paths:
+            if path[-1][0].id not in acts or not any(n.id == c.id and lab == "T" for n, lab in path):
+                continue
+            n_all += 1
+            if any(n.kind == "test" and n.ast is not None and _sep_absent_label(n.ast, fi.node) == lab for n, lab in path):
+                n_abs += 1
+        if n_all and n_abs == n_all:
+            out.append((lim + (1 if isinstance(c.ast.ops[0], ast.Gt) else 0), c.ast))
+    return out
+
+
+def _callee_line_limit(chk: Check, fi) -> bool:
+    """A complete-line length limit in a helper that data_received hands the
+    buffered line to (one level)."""
+    cls = fi.cls
+    if cls is None:
+        return False
+    for c in calls(fi.node):
+        d = dotted(c.func) or ""
+        if not d.startswith("self."):
+            continue
+        m = chk.proj.find_method(cls, d[5:])
+        if m is None:
+            continue
+        params = [p for p in m.params if p != "self"]
+        for i, a in enumerate(c.args):
+            if isinstance(a, ast.Name) and _is_buffer_line(a.id, fi.node) and i < len(params):
+                p = params[i]
+                for cmp in walk(m.node):
+                    if isinstance(cmp, ast.Compare) and isinstance(cmp.ops[0], (ast.Gt, ast.GtE)) and f"len({p})" in norm(cmp.left):
+                        return True
+    return False
+
+
 def length_limit_consistency(chk: Check, rule: str, fi, sep_len: int = 2) -> None:
     """Early rejection of an *unterminated* buffer must leave room for a pending,
     partly received terminator: if a complete line is refused from length t_T on,
@@ -207,9 +344,11 @@ def length_limit_consistency(chk: Check, rule: str, fi, sep_len: int = 2) -> Non
             continue  # `end >= 0` / `!= -1` are found-tests, not length limits
         left = cmp.left
         k = 0
-        if isinstance(left, ast.BinOp) and isinstance(left.op, (ast.Add, ast.Sub)) and isinstance(left.right, ast.Constant) and isinstance(left.right.value, int):
-            k = left.right.value if isinstance(left.op, ast.Add) else -left.right.value
-            left = left.left
+        if isinstance(left, ast.BinOp) and isinstance(left.op, (ast.Add, ast.Sub)):
+            kv = _int_term(proj, fi.module, left.right)
+            if kv is not None:
+                k = kv if isinstance(left.op, ast.Add) else -kv
+                left = left.left
         t0 = lim - k + (1 if isinstance(cmp.ops[0], ast.Gt) else 0)
         # the conjunct `CRLF not in self.buffer` of an enclosing `and`
         conj = ""
@@ -231,6 +370,20 @@ def length_limit_consistency(chk: Check, rule: str, fi, sep_len: int = 2) -> Non
                 terminated.append((t, cmp))
             elif isinstance(arm, ast.Call) and method_call(arm) and method_call(arm)[1] in ("find", "index") and dotted(method_call(arm)[0]) == "self.buffer":
                 terminated.append((t, cmp))
+    # CFG view: a whole-buffer limit whose rejection is only reachable (on feasible
+    # paths) through a "separator absent" edge is a limit on the unterminated buffer
+    for t_u, cmp in _cfg_unterminated(chk, fi):
+        if not any(c is cmp for _, c in unterminated):
+            unterminated.append((t_u, cmp))
+    if unterminated and not terminated and not _callee_line_limit(chk, fi):
+        for t_u, cmp in unterminated:
+            chk.finding(
+                rule, fi.key, f"limit-only-while-terminator-pending:{norm(cmp)[:50]}",
+                f"`{norm(cmp)}` limits the line only while its terminator has not arrived; no limit applies to a complete line: a line longer than {t_u - 1} bytes is accepted when its terminator arrives in the read that crosses the limit and refused when a read boundary falls before it",
+                fi.loc(cmp),
+            )
+            chk.ob(rule, f"{fi.key}: unterminated limit {t_u} has a complete-line counterpart", False)
+        return
     if not unterminated or not terminated:
         return
     t_t = min(t for t, _ in terminated)
